@@ -12,6 +12,12 @@ for mp in sorted(glob.glob('/verif/seeded/*/meta.json')):
     evaluated = bool(m.get('first_detection'))
     if mode == 'first' and evaluated: continue
     if mode == 'again' and not evaluated: continue
+    if mode == 'missed':
+        fd = m.get('first_detection') or {}
+        det = m.get('detection') or {}
+        if not evaluated or any(v.get('exit') == 1 and v.get('verif_commit', '') >= '' for v in det.values()) and not m.get('strengthening_note'):
+            continue      # caught on the first run and not touched since: not repeated
+        if m.get('rechecked_at'): continue
     names.append(n)
 print(len(names), 'changes', flush=True)
 def run(n):
